@@ -90,9 +90,29 @@ bool ConfigData::SaveToFile(const path& file_path) {
     return false;
   }
   LOG(INFO) << "saving config file '" << file_path << "'.";
-  // dump tree
-  std::ofstream out(file_path.c_str());
-  return SaveToStream(out);
+  // dump tree to a temporary file next to the target, then move it into place:
+  // an interrupted save must not leave a truncated file under the final name.
+  path temp_path(file_path);
+  temp_path += ".tmp";
+  {
+    std::ofstream out(temp_path.c_str());
+    if (!SaveToStream(out)) {
+      return false;
+    }
+    out.close();
+    if (out.fail()) {
+      LOG(ERROR) << "failed to write config file '" << temp_path << "'.";
+      return false;
+    }
+  }
+  std::error_code ec;
+  std::filesystem::rename(temp_path, file_path, ec);
+  if (ec) {
+    LOG(ERROR) << "failed to save config file '" << file_path
+               << "': " << ec.message();
+    return false;
+  }
+  return true;
 }
 
 bool ConfigData::IsListItemReference(const string& key) {
